@@ -63,7 +63,7 @@ def visibility_guards(F, body, bb):
     for (sbb, c, o) in required_outcomes(F, body, bb):
         if is_next_switch(body, c):
             continue
-        if c["kind"] == "cmp" and c.get("callee", "").startswith("<" + VISENUM + " as core::cmp::PartialEq>"):
+        if c["kind"] == "cmp" and (c.get("callee", "").startswith("<" + VISENUM + " as core::cmp::PartialEq>") or VISENUM in c.get("targs", [])[:1]):
             for (x, y) in ((c["a"], c["b"]), (c["b"], c["a"])):
                 v = _promoted_variant(body, y)
                 if v != "Hidden":
